@@ -10,15 +10,11 @@ THEOREMS = []
 def run(c):
     if MODULES:
         c.lean(MODULES, THEOREMS)
-    model = c.model_exe()
-    hcodec = c.harness("hcodec")
-    tl2gen = cc.build_tl2gen(c)
+    model, scs = cj.setup(c)
     rng = c.rng
     per = 12 if c.thorough else 4
     cap = 60 if c.thorough else 40
-    for sc in cj.corpus(c):
-        if not cj.prepare(c, hcodec, tl2gen, sc):
-            continue
+    for sc in scs:
         items = cc.link_items(sc)
         g = cj.GenJ(sc, rng.fork(), big=False)
         lines = []
